@@ -760,6 +760,8 @@ def c01_exprs(cases, jts, jidx, limit=None):
         prog, ar, tm = m["prog"], m["arrows"], m["time"]
         if len(prog) > 120:
             continue
+        if sum(len(n[1][-1]) for n in prog if n[0] == "wit" and n[1] is not None) > 1500:
+            continue   # (long witness streams are compared with the python reference only)
         fam = m["family"].split(":")[0]
         count[fam] = count.get(fam, 0) + 1
         if limit and count[fam] > limit.get(fam, limit.get("*", 10 ** 9)):
@@ -776,6 +778,69 @@ def c01_exprs(cases, jts, jidx, limit=None):
         pc = re.sub(r"\(NDisconnect (\d+) \(Some (\d+)\)\)", r"(NDisconnect \1 (Some \2%nat))", pg.prog_coq(q, jet_ids))
         c.expr = "run_c01 jt_%s %s %s [%s]" % (m["fam"], "true" if tm == "r" else "false", pc,
                                                "; ".join("None" if k is None else "Some %d" % k for k in keys))
+
+
+def prog_coq_fixed(q, jidx):
+    import re
+    return re.sub(r"\(NDisconnect (\d+) \(Some (\d+)\)\)", r"(NDisconnect \1 (Some \2%nat))", pg.prog_coq(q, dict(jidx)))
+
+
+def c01_roots_expr(m, jidx, jty):
+    """Gallina expression for Codec/RunRoots.v run_c01_roots: jets used (with their types), program, sharing ids"""
+    prog, ar = m["prog"], m["arrows"]
+    q = []
+    used = []
+    for n, a in zip(prog, ar):
+        if n[0] == "wit" and n[1] is None and a is not None:
+            n = ("wit", ("c", pg.compact_bits(pg.zero_value(a[1]))))
+        if n[0] == "jet" and (n[1], n[2]) not in used:
+            used.append((n[1], n[2]))
+        q.append(n)
+    keys = class_ids(ihr_keys(prog, ar, "r", m.get("hid_alias")))
+    jets = "; ".join("(%d, %d, [%s], [%s])" % (0 if f == "c" else 1, jidx[(f, nm)],
+                                             "; ".join(str(x) for x in pg.ty_nums(jty[(f, nm)][0])),
+                                             "; ".join(str(x) for x in pg.ty_nums(jty[(f, nm)][1]))) for f, nm in used)
+    return "run_c01_roots [%s] %s [%s]" % (jets, prog_coq_fixed(q, jidx),
+                                           "; ".join("None" if k is None else "Some %d" % k for k in keys))
+
+
+def parse_rr(r):
+    """result of harness c01 rr -> {'status', 'nodes': [(tag, cmr, ihr, amr, src, tgt)], 'model_view': [...], 'c': ...}"""
+    if r in ("CRASH", "TIMEOUT") or r is None:
+        return {"status": r or "CRASH"}
+    if r == [9]:
+        return {"status": "panic"}
+    if r[0] != 0:
+        return {"status": "err", "code": r[1:]}
+    n = r[1]
+    pos = 2
+    nodes = []
+    for _ in range(n):
+        if r[pos] == 5:
+            nodes.append((5, r[pos + 1:pos + 33], None, None, None, None))
+            pos += 33
+        else:
+            cmr, ihr, amr = r[pos + 1:pos + 33], r[pos + 33:pos + 65], r[pos + 65:pos + 97]
+            assert r[pos + 97] == 4
+            src, p1 = pg.ty_from_nums(r, pos + 98)
+            tgt, p2 = pg.ty_from_nums(r, p1)
+            nodes.append((1, cmr, ihr, amr, src, tgt))
+            pos = p2
+    def num(bs):
+        v = 0
+        for b in bs:
+            v = 256 * v + b
+        return v
+    mv = [0, n]
+    for nd in nodes:
+        if nd[0] == 5:
+            mv += [5, num(nd[1])]
+        else:
+            mv += [1, num(nd[1]), num(nd[2]), num(nd[3]), 4] + pg.ty_nums(nd[4]) + pg.ty_nums(nd[5])
+    d = {"status": "ok", "nodes": nodes, "model_view": mv}
+    c = r[pos:]
+    d["c"] = c
+    return d
 
 
 def jet_preamble(jts):
